@@ -88,6 +88,8 @@ type GhostUpdate struct {
 	Name  string
 	E     Expr
 	Text  string
+	Optional bool // the hook may match no call
+	Assume bool // assumecall: E is assumed after the call instead of assigned
 }
 
 type SpecFunc struct {
@@ -124,7 +126,7 @@ var tagRe = regexp.MustCompile(`^\[([A-Za-z0-9_, ]+)(?::([A-Za-z0-9_\-\.]+))?\]\
 var keywords = map[string]bool{
 	"func": true, "props": true, "requires": true, "ensures": true, "modifies": true,
 	"loop": true, "invariant": true, "decreases": true, "inline": true, "trusted": true,
-	"pure": true, "unroll": true, "spec": true, "package": true, "noterm": true, "assert": true, "axiom": true, "lemma": true, "callsite": true, "ghost": true, "onassign": true, "oncall": true, "aftercall": true, "closure": true, "chaninv": true,
+	"pure": true, "unroll": true, "spec": true, "package": true, "noterm": true, "assert": true, "axiom": true, "lemma": true, "callsite": true, "ghost": true, "onassign": true, "oncall": true, "aftercall": true, "closure": true, "chaninv": true, "assumecall": true,
 }
 
 // LoadFile parses a contract file. pkgPath is the default package path
@@ -348,6 +350,9 @@ func (cs *Contracts) LoadFile(path string, pkgPath string, external bool) error 
 					return errf("oncall needs '<callee>: name = expr'")
 				}
 				gu := &GhostUpdate{OnCall: strings.TrimSpace(rest[:i]), Text: rest, After: w == "aftercall"}
+				if strings.HasSuffix(gu.OnCall, "?") { // "oncall X?:" the function need not call X at all
+					gu.OnCall, gu.Optional = strings.TrimSuffix(gu.OnCall, "?"), true
+				}
 				as := strings.SplitN(rest[i+1:], "=", 2)
 				if len(as) != 2 {
 					return errf("oncall needs an assignment")
@@ -359,6 +364,18 @@ func (cs *Contracts) LoadFile(path string, pkgPath string, external bool) error 
 				}
 				gu.E = e
 				cur.GhostUps = append(cur.GhostUps, gu)
+			case "assumecall":
+				// assumecall <callee>: <expr over argN / retN>  -- an assumption about what a dependency
+				// returns, stated where it is used; listed with the trusted base in the evidence
+				i := strings.Index(rest, ":")
+				if i < 0 {
+					return errf("assumecall needs '<callee>: <expr>'")
+				}
+				e, err := ParseExpr(strings.TrimSpace(rest[i+1:]))
+				if err != nil {
+					return errf("%v", err)
+				}
+				cur.GhostUps = append(cur.GhostUps, &GhostUpdate{OnCall: strings.TrimSpace(rest[:i]), Text: rest, After: true, Assume: true, E: e})
 			case "callsite":
 				// callsite <callee>: <expr>   (arguments of the call are arg0, arg1, ...)
 				i := strings.Index(rest, ":")
